@@ -140,7 +140,7 @@ def _format(obj, format_spec=""):
         # value); calling its own __str__ under tracing keeps the fields symbolic.
         plain = (not is_int and not isinstance(obj, B.CrossHairValue)
                  and type(obj).__format__ is object.__format__
-                 and type(obj).__str__ is not object.__str__)
+                 and (type(obj).__str__ is not object.__str__ or type(obj).__repr__ is not object.__repr__))
     if is_int and spec in ("", "d"):
         return obj.__repr__()
     if plain and spec == "":
